@@ -173,6 +173,9 @@ pub struct SrvCfg {
     pub flush_action: bool,
     /// the server starts without kill switch; installing it is an explored application action
     pub kill_install_action: bool,
+    /// the application may replace the installed kill switch once (a second add_kill_switch);
+    /// the replaced switch is never signalled afterwards
+    pub kill_reinstall: bool,
     /// a duplicate response for the last answered request of a released connection is an explored action
     pub late_duplicates: bool,
 }
@@ -205,6 +208,7 @@ impl SrvCfg {
             kill_switch_late: false,
             flush_action: false,
             kill_install_action: false,
+            kill_reinstall: false,
             late_duplicates: false,
         }
     }
@@ -220,7 +224,7 @@ impl SrvCfg {
             "max_depth": self.max_depth, "closure_all": self.closure_all, "closure_witness": self.closure_witness,
             "release_check": self.release_check, "flush_probe": self.flush_probe, "twin_without_kill": self.twin_without_kill,
             "respond_any": self.respond_any, "max_outstanding_for_respond": self.max_outstanding_for_respond,
-            "never_yield": self.never_yield, "must_yield_after": self.must_yield_after, "closure_c11": self.closure_c11, "yield_promptly": self.yield_promptly, "kill_switch_late": self.kill_switch_late, "flush_action": self.flush_action, "kill_install_action": self.kill_install_action, "late_duplicates": self.late_duplicates,
+            "never_yield": self.never_yield, "must_yield_after": self.must_yield_after, "closure_c11": self.closure_c11, "yield_promptly": self.yield_promptly, "kill_switch_late": self.kill_switch_late, "flush_action": self.flush_action, "kill_install_action": self.kill_install_action, "kill_reinstall": self.kill_reinstall, "late_duplicates": self.late_duplicates,
         })
     }
     pub fn from_json(v: &Value) -> SrvCfg {
@@ -274,6 +278,7 @@ impl SrvCfg {
             yield_promptly: b("yield_promptly"),
             kill_switch_late: b("kill_switch_late"),
             kill_install_action: b("kill_install_action"),
+            kill_reinstall: b("kill_reinstall"),
             late_duplicates: b("late_duplicates"),
             flush_action: b("flush_action"),
         }
@@ -391,6 +396,9 @@ pub struct World<'a> {
     probe_without_answers: bool,
     killed: bool,
     kill_installed: bool,
+    /// switches replaced by a later add_kill_switch (kept open by the application, never signalled)
+    old_kills: Vec<EventFd>,
+    reinstalls: u8,
     /// the kill switch was signalled before it was handed to the server (the eventfd waits here)
     signalled_early: bool,
     pending_kill_ev: Option<EventFd>,
@@ -541,6 +549,8 @@ impl<'a> World<'a> {
             polls_after_kill: 0,
             probe_without_answers: false,
             kill_installed: false,
+            old_kills: vec![],
+            reinstalls: 0,
             signalled_early: false,
             pending_kill_ev: None,
             last_answered: None,
@@ -639,6 +649,9 @@ impl<'a> World<'a> {
         if let Some(k) = &self.pending_kill_ev {
             all.remove(&k.as_raw_fd());
         }
+        for k in &self.old_kills {
+            all.remove(&k.as_raw_fd());
+        }
         for c in &self.clients {
             all.remove(&c.fd);
         }
@@ -686,7 +699,11 @@ impl<'a> World<'a> {
                 self.log.push("kill".into());
             }
             SAct::InstallKill => {
-                if self.with_kill && self.kill.is_none() {
+                let replacing = self.kill_installed;
+                if self.with_kill && (self.kill.is_none() || replacing) {
+                    if let Some(old) = self.kill.take() {
+                        self.old_kills.push(old);
+                    }
                     let ev = match self.pending_kill_ev.take() {
                         Some(ev) => ev,
                         None => EventFd::new(libc::EFD_NONBLOCK).expect("eventfd"),
@@ -695,7 +712,7 @@ impl<'a> World<'a> {
                     let num = ev.as_raw_fd();
                     let r = util::catch(|| self.server.as_mut().unwrap().add_kill_switch(ev));
                     self.kill = Some(mine);
-                    self.note("InstallKill", json!({"eventfd": num, "reuses_released_number": self.released_fds.contains(&num), "result": format!("{:?}", r.as_ref().map(|x| x.as_ref().map(|_| ()).map_err(|e| format!("{:?}", e))))}));
+                    self.note("InstallKill", json!({"replaces_installed_switch": replacing, "eventfd": num, "reuses_released_number": self.released_fds.contains(&num), "result": format!("{:?}", r.as_ref().map(|x| x.as_ref().map(|_| ()).map_err(|e| format!("{:?}", e))))}));
                     match r {
                         Err(p) => return self.fail("panic", format!("add_kill_switch panicked: {}", p)),
                         Ok(Err(e)) => return self.fail("add-kill-switch-failed", format!("add_kill_switch on a started server returned Err({:?})", e)),
@@ -703,6 +720,9 @@ impl<'a> World<'a> {
                     }
                 } else {
                     self.note("InstallKill", json!({"skipped": "twin without kill switch"}));
+                }
+                if replacing {
+                    self.reinstalls += 1;
                 }
                 self.kill_installed = true;
                 if self.signalled_early {
@@ -1083,6 +1103,14 @@ impl<'a> World<'a> {
                 if reqs.len() >= 2 {
                     self.facts |= 1 << 12;
                 }
+                let mut reqs = reqs;
+                if self.cfg.kill_reinstall {
+                    // descriptor numbers (and with them the order in which one call handles several
+                    // connections) legitimately differ between the server with a replaced kill switch
+                    // and its twin without one: the requests of one call are taken client by client
+                    // (stable, so the order per connection is kept)
+                    reqs.sort_by_key(|r| parse_tag(r.inner().uri().get_abs_path()).map_or(usize::MAX, |t| t.0));
+                }
                 for sreq in reqs {
                     let path = sreq.inner().uri().get_abs_path().to_string();
                     match parse_tag(&path) {
@@ -1417,7 +1445,7 @@ impl<'a> World<'a> {
         let pa: Vec<u8> = self.pending_accept.iter().map(|x| *x as u8).collect();
         let ready = format!("{:?}", self.ready_set());
         let masks = self.interest_masks();
-        let misc = [self.killed as u8, self.polls_after_kill.min(3) as u8, self.kill_installed as u8 | (self.signalled_early as u8) << 1, if self.cfg.late_duplicates { self.last_answered.as_ref().map_or(255, |o| o.client as u8) } else { 0 }];
+        let misc = [self.killed as u8, self.polls_after_kill.min(3) as u8, self.kill_installed as u8 | (self.signalled_early as u8) << 1 | (self.reinstalls as u8) << 2, if self.cfg.late_duplicates { self.last_answered.as_ref().map_or(255, |o| o.client as u8) } else { 0 }];
         let rel: Vec<u8> = self.released_fds.iter().flat_map(|f| f.to_le_bytes()).collect();
         util::hash128(&[&t, &cl, &o, &pa, ready.as_bytes(), masks.as_bytes(), &misc, &(self.limit as u64).to_le_bytes(), &rel])
     }
@@ -1511,7 +1539,7 @@ impl<'a> World<'a> {
         if self.cfg.kill_action && (self.kill.is_some() || self.cfg.kill_install_action) && !self.signalled_early {
             v.push(SAct::Kill);
         }
-        if self.cfg.kill_install_action && !self.kill_installed {
+        if self.cfg.kill_install_action && (!self.kill_installed || (self.cfg.kill_reinstall && self.reinstalls == 0 && !self.killed)) {
             v.push(SAct::InstallKill);
         }
         if self.cfg.late_duplicates {
